@@ -214,6 +214,39 @@ def check_callback(item):
     elif kind == 'listener_sets':
         p.on('callCellValue', lambda cell, done: done(_make_ret(what)))
         ref = 'A1'
+    elif kind == 'listener_api':
+        # listeners that use the emitter while being called: subscribe themselves (or a fresh listener doing the same)
+        # again for the same event, unsubscribe everything, subscribe once-listeners.  Each of these returns at once, so
+        # the evaluation has to end; a fuse keeps a runaway delivery loop from eating the machine and reports it
+        ev, ref = {'cell': ('callCellValue', 'A1'), 'range': ('callRangeValue', 'A1:B2'), 'var': ('callVariable', 'x'),
+                   'fn': ('callFunction', 'SUM(1,2)')}[what.split('/')[0]]
+        mode = what.split('/')[1]
+        state = {'n': 0}
+
+        def again(*a):
+            state['n'] += 1
+            if state['n'] > 20000:
+                return
+            if mode == 'self':
+                p.on(ev, again)
+            elif mode == 'fresh':
+                p.on(ev, lambda *b: again(*b))
+            elif mode == 'once':
+                p.once(ev, again)
+            elif mode == 'off_on':
+                p.off(ev)
+                p.on(ev, again)
+        p.on(ev, again)
+        f = ctxt.replace('%s', ref)
+        try:
+            r = p.parse(f)
+        except Exception as e:  # noqa
+            return [('%s %s in %s' % (kind, what, f), None, 'returns normally', 'raised %s: %s' % (type(e).__name__, e))]
+        if state['n'] > 20000:
+            return [('%s %s in %s' % (kind, what, f), None, 'returns (the listener returns at once every time it is called)',
+                     'no end to the deliveries of one emit: more than 20000 calls of the listener during one evaluation')]
+        w = wf(r)
+        return [('%s %s in %s' % (kind, what, f), None, 'well-formed record', '%s: %r' % (w, r))] if w else []
     f = ctxt.replace('%s', ref)
     try:
         r = p.parse(f)
@@ -311,6 +344,10 @@ def explore(ctx):
         for what in RETURNS:
             for kind in ('fn_returns', 'var', 'listener_sets'):
                 cb.append((kind, what, ctxt))
+    for ctxt in CONTEXTS:
+        for evk in ('cell', 'range', 'var', 'fn'):
+            for mode in ('self', 'fresh', 'once', 'off_on'):
+                cb.append(('listener_api', evk + '/' + mode, ctxt))
     work += [('callback', c) for c in cb]
     hangs = 0
     for (k, c), vs in zip(work, pmap(_worker, work, limit=4.0, confirm=False)):
@@ -353,6 +390,9 @@ def search(ctx, proof, res):
         for what in RETURNS:
             for kind in ('fn_returns', 'var', 'listener_sets'):
                 work.append(('callback', (kind, what, ctxt)))
+        for evk in ('cell', 'range', 'var', 'fn'):
+            for mode in ('self', 'fresh', 'once', 'off_on'):
+                work.append(('callback', ('listener_api', evk + '/' + mode, ctxt)))
     for (k, c), vs in zip(work, pmap(_worker, work, limit=4.0, confirm=False)):
         if vs == HANG:
             vs = confirm_hang(_worker, (k, c))
